@@ -21,7 +21,7 @@ from vf.core import Reject, check_close, check_equal
 
 RULE = (
   "case = random constrained model (contacts on a plane, connect/weld/joint equalities, limits, frictionloss; dense or sparse; "
-  "nworld 1-2 with different states) + sweep of one capacity (naconmax / njmax / njmax_nnz / nvmax) over {0, need-2..need+1, random}; "
+  "optionally sleeping enabled (two-pass collision, compacted solve); nworld 1-2 with different states) + sweep of one capacity (naconmax / njmax / njmax_nnz / nvmax) over {0, need-2..need+1, random}; "
   "evaluation = one (resource, capacity) step compared with the ample-capacity run; non-trivial = capacity in {need-1, need} for a "
   "resource whose need > 0; distinct by sha1(case, resource, capacity)"
 )
@@ -58,7 +58,8 @@ def strategy(tier):
       solver=st.sampled_from(["Newton", "CG"]),
       nworld=st.integers(1, 2),
       state_seed=st.integers(0, 10**6),
-      resource=st.sampled_from(["njmax", "njmax", "nacon", "nnz"]),
+      resource=st.sampled_from(["njmax", "njmax", "nacon", "nnz", "nvmax"]),
+      sleep=st.sampled_from([False, False, True]),
       extra_caps=st.lists(st.integers(0, 40), min_size=0, max_size=2),
     )
   )
@@ -67,6 +68,9 @@ def strategy(tier):
 def _build(case):
   cfg = dict(case["cfg"])
   cfg["option"] = dict(jacobian=case["jacobian"], cone=case["cone"], solver=case["solver"])
+  if case.get("sleep") or case["resource"] == "nvmax":
+    # sleeping (compacted active-dof solve, two-pass collision) requires the Newton solver
+    cfg["option"].update(solver="Newton", flags=dict(sleep="enable"))
   spec = gen.make_spec(cfg)
   mjm = H.compile_spec(spec)
   return mjm
@@ -136,13 +140,21 @@ def check(case, rec):
   resource = case["resource"]
   if resource == "nnz" and not sparse:
     resource = "njmax"
+  sleeping = bool(case.get("sleep")) or resource == "nvmax"
+  need_nv = [0] * nworld
+  if sleeping:
+    awake = d0.tree_awake.numpy()
+    for w in range(nworld):
+      need_nv[w] = int(sum(1 for i in range(mjm.nv) if awake[w, mjm.dof_treeid[i]]))
   if resource == "njmax":
     need = max(need_nefc)
   elif resource == "nacon":
     need = max(need_nacon, need_ncoll)
+  elif resource == "nvmax":
+    need = max(need_nv)
   else:
     need = max(need_nnz)
-  rec.cls(f"resource:{resource}", "sparse" if sparse else "dense", f"need0:{need == 0}", f"nworld:{nworld}")
+  rec.cls(f"sleep:{sleeping}", f"resource:{resource}", "sparse" if sparse else "dense", f"need0:{need == 0}", f"nworld:{nworld}")
   if need == 0:
     caps = [0, 1]
   else:
@@ -154,6 +166,8 @@ def check(case, rec):
     if resource == "nnz" and nworld > 1:
       base |= {min(need_nnz), max(min(need_nnz) - 1, 0)}
     base |= {c % (need + 1) for c in case["extra_caps"]}
+    if resource == "nvmax":
+      base = {c for c in base if c <= mjm.nv}  # make_data rejects nvmax > nv
     caps = sorted(base)
 
   for cap in caps:
@@ -163,13 +177,15 @@ def check(case, rec):
     elif resource == "nacon":
       kw.pop("nconmax")
       kw["naconmax"] = cap
+    elif resource == "nvmax":
+      kw["nvmax"] = cap
     else:
       kw["njmax_nnz"] = cap
     d = _run(mjm, m, states, nworld, **kw)
     rec.ev()
     of = H.overflow(d)
     snap = _snapshot(m, d, nworld)
-    ctx = dict(resource=resource, cap=cap, need_nefc=need_nefc, need_nacon=need_nacon, need_ncoll=need_ncoll, need_nnz=need_nnz, overflow=of.tolist())
+    ctx = dict(resource=resource, cap=cap, need_nv=need_nv, need_nefc=need_nefc, need_nacon=need_nacon, need_ncoll=need_ncoll, need_nnz=need_nnz, overflow=of.tolist())
     boundary = False
     for w in range(nworld):
       # (A) required bits
@@ -181,6 +197,10 @@ def check(case, rec):
         boundary |= need_nnz[w] - cap <= 12
         if not of[w] & int(OT.NJMAX_NNZ | OT.NEFC):
           rec.violation(f"njmax_nnz={cap} < nnz need {need_nnz[w]} in world {w} but NJMAX_NNZ bit not set {ctx}", sig="silent:njmax_nnz", world=w, **ctx)
+      if resource == "nvmax" and need_nv[w] > cap:
+        boundary |= need_nv[w] - cap <= 6
+        if not of[w] & int(OT.NVMAX):
+          rec.violation(f"nvmax={cap} < awake dofs {need_nv[w]} in world {w} but NVMAX bit not set {ctx}", sig="silent:nvmax", world=w, **ctx)
       if resource == "nacon" and ncon_w[w] > 0:
         z = "0" if cap == 0 else ""
         if need_ncoll > cap and not of[w] & int(OT.BROADPHASE):
